@@ -46,6 +46,10 @@ func workers() int {
 	return 4
 }
 
+// daemonDown: the rigs' IPFS daemon is stopped after the warm-up request, so
+// every request finds it unreachable (connection refused).
+var daemonDown bool
+
 // runParallel feeds n indices to w rigs.
 func runParallel(t *testing.T, n int, fn func(g *rig, i int)) {
 	w := workers()
@@ -54,6 +58,10 @@ func runParallel(t *testing.T, n int, fn func(g *rig, i int)) {
 		g, err := newRig()
 		if err != nil {
 			t.Fatalf("rig: %v", err)
+		}
+		if daemonDown {
+			g.d.srv.CloseClientConnections()
+			g.d.srv.Close()
 		}
 		rigs[i] = g
 	}
